@@ -61,6 +61,7 @@ package fs
 //@ func (f File) Sync() (err error)
 //@   requires ok: fileOK(f)
 //@   ensures dur: err == nil ==> fDur[fid(f)] == fLen[fid(f)]
+//@   ensures mono: fDur[fid(f)] >= old(fDur[fid(f)])
 //@   ensures err: err != nil ==> isIOErr(err)
 //@   ensures ok: fileOK(f)
 //@   modifies fDur[fidOf[f]]
